@@ -76,6 +76,35 @@ def main_loop_of(body):
     return loops[0] if loops else None
 
 
+def answer_idiom_unknown(body):
+    """a SolOut call whose answer the analyses cannot follow: the models know `match sol.solout(..) {..}`, `let flag =
+    sol.solout(..);` and `if let X = sol.solout(..)`; a call that is the value of a match / if arm (`let flag = match solout {
+    Some(s) => s.solout(..), None => ControlFlag::Continue }`) merges the answer with a constant and is reported as not decided"""
+    out = []
+    for c, parents in tast.find_with_parents(body["body"], lambda z: z.get("k") == "MethodCall" and z.get("def") == SOLOUT):
+        p_ = None
+        for q in reversed(parents):
+            if q.get("k") in ("DropTemps", "Paren", "Block") and q.get("k") != "Block":
+                continue
+            p_ = q
+            break
+        ok = False
+        if p_ is not None:
+            if p_.get("k") == "Match" and p_.get("scrut") is c:
+                ok = True
+            elif p_.get("k") == "Let" and p_.get("init") is c:
+                ok = True
+            elif p_.get("k") == "LetExpr" and p_.get("init") is c:
+                ok = True
+            elif p_.get("k") in ("ExprStmt", "Semi"):
+                ok = True
+            elif p_.get("k") == "Binary" and p_.get("op") in ("Eq", "Ne"):
+                ok = True
+        if not ok:
+            out.append(c)
+    return out
+
+
 def acc_rule(rep, f, rule="R-CNT-ACC"):
     for mod, ty in SOLVERS:
         fn = "methods::%s::%s::solve" % (mod, ty)
@@ -83,6 +112,10 @@ def acc_rule(rep, f, rule="R-CNT-ACC"):
         main = main_loop_of(body)
         if main is None:
             rep.inconc("R-CNT-ACC", "R-CNT-ACC:%s" % fn, "no main loop with a SolOut callback")
+            continue
+        unk = answer_idiom_unknown(body)
+        if unk:
+            rep.inconc("R-CNT-ACC", "R-CNT-ACC:%s" % fn, "the callback's answer is merged with other values before it is tested (the call is the value of a match / if arm): the counting model does not follow that", unk[0].get("sp"))
             continue
         m = AccMon(fn, main)
         m.prepare()
